@@ -326,6 +326,8 @@ func runC08(c *Ctx) {
 	R.Rule("clone-detached", "Clone's backing slice is freshly allocated with the same length and dimensions", 1)
 	R.Rule("accessors", "Get returns the cell at (x,y) and Set stores the value there (through the unchecked helpers, called once with the method's own arguments); New2DFilled fills the new slice with the value; every panic path rejects a coordinate that really is out of range (the guards are exact)", 5)
 
+	R.Rule("fill-helper", "slices.Fill, through which New2DFilled and Array2D.Fill write the value, sets every element (C12's row, re-run here)", 1)
+	c12Fill(c, "fill-helper")
 	R.Rule("guards-complete", "every returning path of an exported method has bounded each integer coordinate parameter from below (>= 0) and above (< a dimension)", 5)
 	R.Rule("span-exact", "Row(y) = slice[y*W : (y+1)*W]; RowSpan(x1,x2,y) = slice[x1+y*W : x2+1+y*W]", 2)
 	R.Rule("jagged-ctor", "New2DFromJagged = New2D(width, height) + copy(Row(y), jagged[y]) for y < height", 1)
